@@ -30,6 +30,10 @@ pub enum AbandonTarget {
     TimedOut,
     InFlight,
     NeverIssued,
+    /// a streaming search that has delivered one entry and whose consumer waits in next(); afterwards finish()
+    InFlightSearch,
+    /// the same, but the stream is dropped without finish() after the waiter was released
+    InFlightSearchDropped,
 }
 
 #[derive(Clone, Debug, PartialEq, Eq, Hash, Serialize, Deserialize)]
@@ -52,6 +56,11 @@ pub enum Step {
     /// operation times out while its request is still queued at the driver; then the buffer drains.
     /// `answered`: whether the server (which does get the request in the end) ever answers it
     TimeoutWhileQueued { search: bool, adapted: bool, answered: bool },
+    /// a search during which the server also sends a response of a non-search type (application tag) under
+    /// the search's id; it is ignored and the search completes normally
+    SearchWithForeign { adapted: bool, app: u8, n: u8 },
+    /// search() convenience call against a silent server (no stream the caller could finish())
+    SearchConvTimeout { late: bool },
 }
 
 #[derive(Clone, Debug, Serialize, Deserialize)]
@@ -74,11 +83,13 @@ fn strat(_: &Ctx) -> BoxedStrategy<Case> {
             Step::Search { how, n, pages, read, open }
         }),
         1 => (any::<bool>(), any::<bool>()).prop_map(|(adapted, late)| Step::SearchTimeout { adapted, late }),
-        3 => prop_oneof![Just(AbandonTarget::Finished), Just(AbandonTarget::TimedOut), Just(AbandonTarget::InFlight), Just(AbandonTarget::NeverIssued)].prop_map(Step::Abandon),
+        3 => prop_oneof![Just(AbandonTarget::Finished), Just(AbandonTarget::TimedOut), Just(AbandonTarget::InFlight), Just(AbandonTarget::NeverIssued), Just(AbandonTarget::InFlightSearch), Just(AbandonTarget::InFlightSearchDropped)].prop_map(Step::Abandon),
         1 => (0u8..3).prop_map(Step::Unsolicited),
         3 => (1u8..6).prop_map(Step::Rewind),
         2 => (any::<bool>(), any::<bool>()).prop_map(|(search, adapted)| Step::TimeoutTie { search, adapted }),
         2 => (any::<bool>(), any::<bool>(), any::<bool>()).prop_map(|(search, adapted, answered)| Step::TimeoutWhileQueued { search, adapted, answered }),
+        1 => (any::<bool>(), proptest::sample::select(&[1u8, 7, 9, 11, 13, 15, 24][..]), 0u8..4).prop_map(|(adapted, app, n)| Step::SearchWithForeign { adapted, app, n }),
+        1 => any::<bool>().prop_map(|late| Step::SearchConvTimeout { late }),
     ];
     (vec(step, 3..=14), 1u8..=3, any::<u64>()).prop_map(|(steps, repeat, sched)| Case { steps, repeat, sched }).boxed()
 }
@@ -90,6 +101,8 @@ enum Plan {
     Silent { late: bool },
     /// answer (result, or one entry for a search) exactly `after_ms` after the request arrived
     Tie { after_ms: u64 },
+    /// a search answered with one entry, a well-formed response of another type under the same id, the rest, the result
+    Foreign { entries: u8, app: u8 },
     /// open_page: the final result of this page index is withheld (and sent late)
     Paged { per_page: u8, pages: u8, open_page: Option<usize> },
 }
@@ -149,6 +162,23 @@ async fn server(wire: sim::Wire, sh: Arc<Mutex<Shared>>) {
                     }
                     Some(Plan::Silent { late }) => {
                         sh.lock().unwrap().silent_ids.push((m.id, tag, late));
+                    }
+                    Some(Plan::Foreign { entries, app }) => {
+                        let foreign = if app == 24 {
+                            RespMsg::new(m.id, Resp::Result { app: 24, res: Res::ok("foreign"), sasl: None, exop_name: Some("1.2.3".into()), exop_val: None })
+                        } else {
+                            RespMsg::new(m.id, Resp::result(app, Res::ok("foreign")))
+                        };
+                        for e in 0..entries {
+                            if e == 1 {
+                                out.extend_from_slice(&foreign.encode());
+                            }
+                            out.extend_from_slice(&RespMsg::new(m.id, Resp::Entry(Entry::simple(&format!("cn=e{}", e)))).encode());
+                        }
+                        if entries <= 1 {
+                            out.extend_from_slice(&foreign.encode());
+                        }
+                        out.extend_from_slice(&RespMsg::new(m.id, Resp::result(5, Res::ok(""))).encode());
                     }
                     Some(Plan::Tie { after_ms }) => {
                         let w2 = wire.clone();
@@ -336,6 +366,49 @@ async fn do_step(cx: &mut Cx, step: &Step) -> Result<(), Fail> {
                 AbandonTarget::Finished => cx.last_finished.unwrap_or(1),
                 AbandonTarget::TimedOut => cx.last_timed_out.unwrap_or(1),
                 AbandonTarget::NeverIssued => 1_000_000 + cx.next_idx as i32,
+                AbandonTarget::InFlightSearch | AbandonTarget::InFlightSearchDropped => {
+                    let dropped = *t == AbandonTarget::InFlightSearchDropped;
+                    let (idx, mk) = cx.plan(Plan::Answer { entries: 1, rc: 0, open: true });
+                    let mut l2 = cx.ldap.clone();
+                    let jh = tokio::spawn(async move {
+                        let mut s = match l2.streaming_search(&mk, Scope::Subtree, "(a=b)", vec!["a"]).await {
+                            Ok(s) => s,
+                            Err(e) => return Err(format!("start:{}", err_kind(&e))),
+                        };
+                        let first = s.next().await.map(|o| o.is_some()).map_err(|e| err_kind(&e));
+                        // this call waits: the final result is withheld
+                        let second = s.next().await.map(|o| o.is_some()).map_err(|e| err_kind(&e));
+                        if dropped {
+                            drop(s);
+                        } else {
+                            let _ = s.finish().await;
+                        }
+                        Ok((first, second))
+                    });
+                    quiesce().await;
+                    let id = { cx.sh.lock().unwrap().wire_ids.get(&idx).and_then(|v| v.last().copied()) };
+                    let Some(id) = id else { fail!("c13:op-failed", "in-flight search never reached the server") };
+                    let id = id as i32;
+                    let r = cx.ldap.abandon(id).await;
+                    ensure!(r.is_ok(), "c13:abandon-failed", "abandon({}) failed: {:?}", id, r.err().map(|e| err_kind(&e)));
+                    let ah = jh.abort_handle();
+                    match tokio::time::timeout(Duration::from_secs(3600), jh).await {
+                        Err(_) => {
+                            ah.abort();
+                            fail!("c13:abandon-waiter-not-released", "a consumer waiting in next() of search {} is still blocked an hour after abandon({})", id, id)
+                        }
+                        Ok(Err(_)) => fail!("c13:abandon-waiter-panic", "waiter panicked: {:?}", crate::runner::take_panics()),
+                        Ok(Ok(Err(e))) => fail!("c13:op-failed", "in-flight search: {}", e),
+                        Ok(Ok(Ok((first, second)))) => {
+                            ensure!(first == Ok(true), "c13:op-failed", "the entry sent before the abandon was not delivered: {:?}", first);
+                            ensure!(second.is_err(), "c13:abandon-waiter-got-ok", "next() of the abandoned search returned {:?} instead of an error", second);
+                        }
+                    }
+                    let ab = cx.sh.lock().unwrap().abandons.clone();
+                    ensure!(ab.len() == before + 1 && ab[before] == id as i64, "c13:abandon-request", "abandon({}) put {:?} on the wire", id, &ab[before..]);
+                    cx.notes.push(if dropped { "abandon-of-mid-stream-search-then-drop".into() } else { "abandon-of-mid-stream-search-then-finish".into() });
+                    return Ok(());
+                }
                 AbandonTarget::InFlight => {
                     let (_, mk) = cx.plan(Plan::Silent { late: false });
                     let mut l2 = cx.ldap.clone();
@@ -349,7 +422,11 @@ async fn do_step(cx: &mut Cx, step: &Step) -> Result<(), Fail> {
                     let r = cx.ldap.abandon(id).await;
                     ensure!(r.is_ok(), "c13:abandon-failed", "abandon({}) failed: {:?}", id, r.err().map(|e| err_kind(&e)));
                     // the waiting caller must be released with an error
+                    let ah = jh.abort_handle();
                     let waited = tokio::time::timeout(Duration::from_secs(3600), jh).await;
+                    if waited.is_err() {
+                        ah.abort();
+                    }
                     match waited {
                         Err(_) => fail!("c13:abandon-waiter-not-released", "a caller waiting on operation {} is still blocked an hour after abandon({})", id, id),
                         Ok(Ok((r, lid))) => {
@@ -429,6 +506,32 @@ async fn do_step(cx: &mut Cx, step: &Step) -> Result<(), Fail> {
             }
             cx.sh.lock().unwrap().silent_ids.clear();
         }
+        Step::SearchWithForeign { adapted, app, n } => {
+            let (_, mk) = cx.plan(Plan::Foreign { entries: *n, app: *app });
+            let s = if *adapted { cx.ldap.streaming_search_with(EntriesOnly::new(), &mk, Scope::Subtree, "(a=b)", vec!["a"]).await } else { cx.ldap.streaming_search(&mk, Scope::Subtree, "(a=b)", vec!["a"]).await };
+            let mut s = match s {
+                Ok(s) => s,
+                Err(e) => fail!("c13:op-failed", "search start failed: {}", err_kind(&e)),
+            };
+            let mut got = 0;
+            loop {
+                match s.next().await {
+                    Ok(Some(_)) => got += 1,
+                    Ok(None) => break,
+                    Err(e) => fail!("c13:op-failed", "a search that also received a response of type [APPLICATION {}] under its id failed with {} after {} entries (such a response is to be ignored)", app, err_kind(&e), got),
+                }
+            }
+            let res = s.finish().await;
+            ensure!(got == *n as usize && res.rc == 0, "c13:search-entries", "search with a foreign response under its id yielded {} of {} entries, rc {}", got, n, res.rc);
+        }
+        Step::SearchConvTimeout { late } => {
+            let (_, mk) = cx.plan(Plan::Silent { late: *late });
+            cx.ldap.with_timeout(Duration::from_millis(50));
+            let r = cx.ldap.search(&mk, Scope::Subtree, "(a=b)", vec!["a"]).await;
+            ensure!(matches!(r, Err(ldap3::LdapError::Timeout { .. })), "c13:timeout-expected", "search() against a silent server did not time out");
+            quiesce().await;
+            cx.send_late();
+        }
         Step::Rewind(k) => {
             let mut m = cx.msgmap.lock().unwrap();
             m.0 = (m.0 - *k as i32).max(0);
@@ -458,6 +561,8 @@ fn step_class(s: &Step) -> String {
         Step::SearchTimeout { adapted, .. } => format!("search-timeout-{}", if *adapted { "adapted" } else { "direct" }),
         Step::Unsolicited(_) => "unsolicited".into(),
         Step::Rewind(_) => "rewind-id-counter".into(),
+        Step::SearchWithForeign { adapted, .. } => format!("search-with-foreign-response-{}", if *adapted { "adapted" } else { "direct" }),
+        Step::SearchConvTimeout { .. } => "search()-timeout".into(),
         Step::TimeoutTie { search, .. } => format!("timeout-tie-{}", if *search { "search" } else { "single" }),
         Step::TimeoutWhileQueued { search, answered, .. } => format!("timeout-while-queued-{}-{}", if *search { "search" } else { "single" }, if *answered { "answered-later" } else { "never-answered" }),
     }
